@@ -27,7 +27,7 @@ ASSUMPTIONS = ["env.X is by definition the published transformed table; tables w
                "(3 + 2*window days) are not 'daily or finer' and are not generated",
                "a configuration with too little data may be refused at construction (counted as config-rejected)"]
 REQUIRED = ["C18:observation", "C18:bounds", "C18:step-date", "C18:quotes", "C18:rate", "C18:full-window", "C18:published-table"]
-REQUIRED_CATS = ["earlier-fold-after-later-fold", "last-date-is-a-holiday", "fold-after-holiday-cluster", "rate-off-price-dates", "window>1", "stride", "late-fold", "calendar:LSE", "calendar:NYSE", "transformer:None", "transformer:z-score",
+REQUIRED_CATS = ["latency-with-intraday-feature-rows", "earlier-fold-after-later-fold", "last-date-is-a-holiday", "fold-after-holiday-cluster", "rate-off-price-dates", "window>1", "stride", "late-fold", "calendar:LSE", "calendar:NYSE", "transformer:None", "transformer:z-score",
                  "transformer:yeo-johnson"]
 TECHNIQUE = "runtime monitoring: observations, quotes and step dates of real episodes compared at every call with the tables the environment was given"
 LEVEL_TEXT = ("Exploration over generated table shapes and options; at every call of every episode the observation, the traded quotes, "
@@ -74,6 +74,16 @@ def case(ctx, i, tier):
         nnan += 1
     if r.random() < 0.3 and not around_new_year:
         X = X.drop(X.index[r.sample(range(len(dX)), 3)])
+    lat = 0
+    if not around_new_year and freq in ("B", "D") and r.random() < 0.25:
+        # data finer than the price grid, with a latency: some feature rows are stamped 30 s after a price timestamp
+        # (they reach the observation one step later, through the latent batch of the next step)
+        lat = 60
+        extra_idx = pd.DatetimeIndex([t_ + pd.Timedelta(seconds=30) for t_ in dY if r.random() < 0.4])
+        if len(extra_idx):
+            X = pd.concat([X, pd.DataFrame(rng.normal(0, 2, [len(extra_idx), nf]), extra_idx, columns=X.columns)]).sort_index()
+            X = X[~X.index.duplicated()]
+        ctx.cat("latency-with-intraday-feature-rows")
     window = r.choice([1, 1, 2, 3, 7, 15, 30])
     stride = r.choice([None, None, 1, 2, 3, 5])
     tf = r.choice([None, "z-score", "yeo-johnson"])
@@ -132,7 +142,7 @@ def case(ctx, i, tier):
     Xin, Yin = X.copy(), Y.copy()
     try:
         env = TradingEnvXY(X, Y, window=window, stride=stride, spread=SP, transformer=tf, clip=clip, calendar=cal, folds=folds,
-                           rate=rate, margin=0., steps_delay=sd, **kw)
+                           rate=rate, margin=0., steps_delay=sd, latency=lat, **kw)
     except Exception as ex:
         ctx.cat("config-rejected")
         ctx.notes["rejected"] = repr(ex)[:200]
